@@ -41,6 +41,7 @@ PLANS = [
     ("lig6", ["lig"], [1, 2, 4, 6], 3, 5),
     ("ctx", ["ctx"], [1, 2, 4], 3, 5),
     ("ctxnest", ["ctxnest"], [1, 2], 6, 8),
+    ("ctxskip", ["ctxskip"], [1, 4], 6, 8),
     ("chain", ["chain"], [1, 2, 4], 4, 5),
     ("gpos", ["gpos"], [1, 2, 3, 4, 5], 3, 4),
 ]
